@@ -15,6 +15,7 @@ func init() {
 	vpHarnesses["vpH_C06_tagindex"] = vpH_C06_tagindex
 	vpHarnesses["vpH_C06_limit"] = vpH_C06_limit
 	vpHarnesses["vpH_C06_emptyfilters"] = vpH_C06_emptyfilters
+	vpHarnesses["vpH_C06_batch"] = vpH_C06_batch
 }
 
 // The SQL text runs inside SQLite's C engine: outside this technique. Decided
@@ -298,4 +299,54 @@ func vpH_C06_emptyfilters() {
 // vpIsFalseLiteral: SQL literals that are an always-false condition.
 func vpIsFalseLiteral(sql string) bool {
 	return sql == "0" || sql == "false" || sql == "1=0" || sql == "1 = 0"
+}
+
+// O8: a batch yields one parameter set per storable event, in batch order - also
+// when several events of the batch share a storage key (two versions of one
+// address, the same event twice): choosing the newest is the upsert's job, and
+// it can only do so if every version reaches it.
+func vpH_C06_batch() {
+	if !vpSymbolic() {
+		vpReach("end")
+		return
+	}
+	vpInstallHashStubs()
+	vpStub("encoding/json.Marshal", func(v any) ([]byte, error) { return []byte("[]"), nil })
+	ids := []string{vpID1, vpID2, "3333333333333333333333333333333333333333333333333333333333333333"}
+	sig := vpPkA + vpPkA
+	n := 2 + vpChoice("n", 2)
+	var batch []*mocrelay.Event
+	var wantIDs []string
+	for i := 0; i < n; i++ {
+		var e *mocrelay.Event
+		switch vpChoice("class", 5) {
+		case 0: // regular
+			e = &mocrelay.Event{ID: ids[i], Pubkey: vpPkA, Kind: 1, CreatedAt: vpInt64("at"), Tags: []mocrelay.Tag{}, Sig: sig}
+		case 1: // replaceable, same address for every position
+			e = &mocrelay.Event{ID: ids[i], Pubkey: vpPkA, Kind: 10000, CreatedAt: vpInt64("at"), Tags: []mocrelay.Tag{}, Sig: sig}
+		case 2: // addressable, same address for every position
+			e = &mocrelay.Event{ID: ids[i], Pubkey: vpPkA, Kind: 30000, CreatedAt: vpInt64("at"), Tags: []mocrelay.Tag{{"d", "x"}}, Sig: sig}
+		case 3: // ephemeral: never stored
+			e = &mocrelay.Event{ID: ids[i], Pubkey: vpPkA, Kind: 20000, CreatedAt: vpInt64("at"), Tags: []mocrelay.Tag{}, Sig: sig}
+		case 4: // the first event again
+			if i == 0 {
+				vpAssume(false)
+			}
+			e = batch[0]
+		}
+		batch = append(batch, e)
+		if e.Kind != 20000 {
+			wantIDs = append(wantIDs, e.ID)
+		}
+	}
+	params := buildInsertEventsParams(vpSeed, batch)
+	vpAssert(len(params) == len(wantIDs), "C06.batch-one-parameter-set-per-storable-event")
+	for i := range params {
+		if i < len(wantIDs) {
+			idBin, ok := params[i].Events[1].([]byte)
+			d := wantIDs[i][0] - '0'
+			vpAssert(ok && len(idBin) == 32 && idBin[0] == d<<4|d, "C06.batch-order-kept")
+		}
+	}
+	vpReach("end")
 }
